@@ -236,5 +236,8 @@ func scC11(r *Run) {
 }
 
 func init() {
-	register(&PropDef{ID: "C11", Quick: 2000, Thorough: 40000, Profiles: []ProfileDef{{Name: "stub", Share: 1, Sc: scC11}}})
+	register(&PropDef{ID: "C11", Quick: 2000, Thorough: 40000, Profiles: []ProfileDef{
+		{Name: "stub", Share: 6, Sc: scC11},
+		{Name: "ll-muxer", Share: 1, Sc: scC11LL},
+	}})
 }
